@@ -92,7 +92,8 @@ type c18Pending struct {
 	tok     int
 	kind    int
 	creator uint64
-	ch      chan string // "ok" | "fail" | "timeout"
+	remote  bool        // NewRemotePublisher + NewRemoteSubscriber of one remote create-subscriber
+	ch      chan string // "ok" | "fail" | "timeout"; remote only: "subfail" | "subtimeout" (publisher created, attaching fails)
 }
 
 type c18Obj struct {
@@ -147,47 +148,64 @@ type c18Mcu struct {
 	next     int
 	pending  map[int]*c18Pending
 	open     map[int]*c18Obj
+	// every remote publisher ever handed out (NewRemotePublisher), by the number of its creation request
+	rpubs map[int]*c18RemotePublisher
 	// stress mode: complete successfully at the moment the request context is cancelled
 	completeOnCancel bool
+	cancelRes        string // stress mode, remote creations: "ok" | "subfail"
 }
 
 func newC18Mcu(activity *atomic.Int64) *c18Mcu {
-	return &c18Mcu{activity: activity, pending: map[int]*c18Pending{}, open: map[int]*c18Obj{}}
+	return &c18Mcu{activity: activity, pending: map[int]*c18Pending{}, open: map[int]*c18Obj{}, rpubs: map[int]*c18RemotePublisher{}, cancelRes: "ok"}
 }
 
 func (m *c18Mcu) touch() { m.activity.Add(1) }
 
 // gate blocks until the harness decides what the media server answers
 func (m *c18Mcu) gate(ctx context.Context, listener signaling.McuListener, kind int) (tok int, creator uint64, err error) {
+	tok, creator, _, err = m.gateRes(ctx, listener, kind, false)
+	return
+}
+
+func c18ResErr(res string) error {
+	switch res {
+	case "timeout", "subtimeout":
+		return context.DeadlineExceeded
+	}
+	return errors.New("media server refused")
+}
+
+func (m *c18Mcu) gateRes(ctx context.Context, listener signaling.McuListener, kind int, remote bool) (tok int, creator uint64, res string, err error) {
 	if s, ok := listener.(*ProxySession); ok {
 		creator = s.Sid()
 	}
 	m.mu.Lock()
-	p := &c18Pending{tok: m.next, kind: kind, creator: creator, ch: make(chan string, 1)}
+	p := &c18Pending{tok: m.next, kind: kind, creator: creator, remote: remote, ch: make(chan string, 1)}
 	m.next++
 	m.pending[p.tok] = p
 	m.mu.Unlock()
 	m.touch()
-	var res string
 	if m.completeOnCancel {
 		<-ctx.Done()
 		res = "ok"
+		if remote {
+			res = m.cancelRes
+		}
 	} else {
 		res = <-p.ch // the harness decides; the request context is deliberately not consulted
 	}
-	switch res {
-	case "ok":
-		return p.tok, creator, nil
-	case "timeout":
-		err = context.DeadlineExceeded
-	default:
-		err = errors.New("media server refused")
+	if !remote && (res == "subfail" || res == "subtimeout") {
+		res = strings.TrimPrefix(res, "sub") // a local creation has one step only
 	}
+	if res == "ok" || (remote && (res == "subfail" || res == "subtimeout")) {
+		return p.tok, creator, res, nil
+	}
+	err = c18ResErr(res)
 	m.mu.Lock()
 	delete(m.pending, p.tok)
 	m.mu.Unlock()
 	m.touch()
-	return p.tok, creator, err
+	return p.tok, creator, res, err
 }
 
 func (m *c18Mcu) opened(o *c18Obj) {
@@ -220,6 +238,80 @@ func (m *c18Mcu) NewSubscriber(ctx context.Context, listener signaling.McuListen
 	return s, nil
 }
 
+// ---- remote subscribers (create-subscriber with remoteUrl + remoteToken) -----------
+//
+// Like mcuJanus: NewRemotePublisher hands out a reference-counted remote publisher
+// (count 1 = the creator's reference), NewRemoteSubscriber takes a reference for the
+// subscriber it attaches, the subscriber's Close gives that one back (once), and the
+// publisher is closed at the media server when its count reaches 0.  One gate for the
+// whole request: the harness's answer says how far it gets
+// (ok | fail, timeout: NewRemotePublisher fails | subfail, subtimeout: NewRemoteSubscriber fails).
+type c18RemotePublisher struct {
+	c18Obj
+	refcnt  atomic.Int32
+	handed  int32 // references handed out in total
+	subRes  string
+	negative atomic.Int32 // Close calls that found the count at 0 already
+}
+
+func (p *c18RemotePublisher) Port() int     { return 10000 + p.num }
+func (p *c18RemotePublisher) RtcpPort() int { return 20000 + p.num }
+func (p *c18RemotePublisher) Close(ctx context.Context) {
+	p.closes.Add(1)
+	if n := p.refcnt.Add(-1); n < 0 {
+		p.refcnt.Add(1)
+		p.negative.Add(1)
+	}
+	p.mcu.touch()
+}
+
+type c18RemoteSubscriber struct {
+	c18Subscriber
+	remote atomic.Pointer[c18RemotePublisher]
+}
+
+func (s *c18RemoteSubscriber) Close(ctx context.Context) {
+	s.c18Subscriber.Close(ctx)
+	if r := s.remote.Swap(nil); r != nil {
+		r.Close(context.Background())
+	}
+}
+
+func (m *c18Mcu) NewRemotePublisher(ctx context.Context, listener signaling.McuListener, controller signaling.RemotePublisherController, streamType signaling.StreamType) (signaling.McuRemotePublisher, error) {
+	tok, creator, res, err := m.gateRes(ctx, listener, c18Sub, true)
+	if err != nil {
+		return nil, err
+	}
+	p := &c18RemotePublisher{subRes: res, handed: 1}
+	p.mcu, p.num, p.kind, p.creator = m, tok, c18Sub, creator
+	p.refcnt.Store(1)
+	m.mu.Lock()
+	m.rpubs[tok] = p // the request stays pending until NewRemoteSubscriber has answered
+	m.mu.Unlock()
+	m.touch()
+	return p, nil
+}
+
+func (m *c18Mcu) NewRemoteSubscriber(ctx context.Context, listener signaling.McuListener, publisher signaling.McuRemotePublisher) (signaling.McuRemoteSubscriber, error) {
+	p, ok := publisher.(*c18RemotePublisher)
+	if !ok {
+		return nil, errors.New("not a remote publisher of this media server")
+	}
+	if p.subRes != "ok" {
+		m.mu.Lock()
+		delete(m.pending, p.num)
+		m.mu.Unlock()
+		m.touch()
+		return nil, c18ResErr(p.subRes)
+	}
+	p.refcnt.Add(1)
+	s := &c18RemoteSubscriber{}
+	s.mcu, s.num, s.kind, s.creator = m, p.num, c18Sub, p.creator
+	s.remote.Store(p)
+	m.opened(&s.c18Obj)
+	return s, nil
+}
+
 // ---- case description (replayable) -----------------------------------------------
 
 type c18Tok struct {
@@ -244,7 +336,11 @@ type c18Op struct {
 	Id  int     `json:"id,omitempty"`  // object number (delete, streams, payload)
 	P   string  `json:"p,omitempty"`   // payload: end fwd bad; malformed: json notype nobody
 	T   int     `json:"t,omitempty"`   // done: token
-	R   string  `json:"r,omitempty"`   // done: ok fail timeout
+	R   string  `json:"r,omitempty"`   // done: ok fail timeout; subfail subtimeout (remote: the publisher was created, attaching the subscriber fails; model: MFail / MTimeout)
+	// create-sub: the remote form (remoteUrl + remoteToken: NewRemotePublisher, then NewRemoteSubscriber).
+	// Model: CCreateSubRemote, which `step` treats like CCreateSub: on the code as it should be the remote form differs
+	// from the local one in nothing the observation contains (the remote publisher lives exactly as long as its subscriber).
+	Remote bool `json:"remote,omitempty"`
 	// bye, expire: creations that complete while the close of the session is frozen in a window
 	In []c18Slot `json:"in,omitempty"`
 }
@@ -263,7 +359,7 @@ type c18Slot struct {
 
 var c18Windows = []string{"list", "ctx", "subs", "remote"}
 var c18WindowPhase = map[string]string{"list": "PhList", "ctx": "PhCtx", "subs": "PhSubs", "remote": "PhRemote"}
-var c18ResTerm = map[string]string{"ok": "MOk", "fail": "MFail", "timeout": "MTimeout"}
+var c18ResTerm = map[string]string{"ok": "MOk", "fail": "MFail", "timeout": "MTimeout", "subfail": "MFail", "subtimeout": "MTimeout"}
 
 func c18SlotsTerm(l []c18Slot) string {
 	var s []string
@@ -356,6 +452,10 @@ func c18NewRun(t *testing.T, keys *c18KeySet) *c18Run {
 	}
 	h.mcu = newC18Mcu(&h.activity)
 	proxy.mcu = h.mcu
+	// remote subscribers are enabled (app.token_id / token_key / hostname of the configuration)
+	proxy.tokenId = "iss0"
+	proxy.tokenKey = keys.rsa[0]
+	proxy.remoteHostname = "c18-proxy.invalid"
 	h.proxy = proxy
 	h.server = httptest.NewServer(r)
 	return h
@@ -824,6 +924,20 @@ func (h *c18Run) observe(applied bool) string {
 	for _, o := range h.mcu.open {
 		op = append(op, ent{o.num, o.kind, o.creator})
 	}
+	// a remote publisher somebody still holds a reference to is open at the media server.  It is
+	// listed under the creation request it was made for (one entry per request: the remote
+	// subscriber and the remote publisher behind it), so it appears on its own exactly when it
+	// is open without its subscriber.
+	for num, rp := range h.mcu.rpubs {
+		if rp.refcnt.Load() > 0 {
+			if _, dup := h.mcu.open[num]; !dup {
+				op = append(op, ent{rp.num, rp.kind, rp.creator})
+			}
+		}
+		if rp.negative.Load() > 0 {
+			h.notes["remote_publisher_released_too_often"]++
+		}
+	}
 	for tok := range h.mcu.pending {
 		pend = append(pend, tok)
 	}
@@ -864,6 +978,18 @@ func (h *c18Run) observe(applied bool) string {
 // ---- executing operations ---------------------------------------------------------
 
 const c18VirtualEpoch = int64(1000000000) * int64(time.Second)
+
+// remoteToken: what the signaling server sends along with remoteUrl: a token of a configured
+// issuer, issued now, whose subject is the publisher id
+func (h *c18Run) remoteToken(subject string) string {
+	claims := &signaling.TokenClaims{RegisteredClaims: jwt.RegisteredClaims{
+		IssuedAt: jwt.NewNumericDate(time.Now().Add(-10 * time.Second)), Issuer: "iss0", Subject: subject}}
+	tok, err := jwt.NewWithClaims(jwt.SigningMethodRS256, claims).SignedString(h.keys.rsa[0])
+	if err != nil {
+		h.t.Fatal(err)
+	}
+	return tok
+}
 
 func (h *c18Run) uuidOf(num int) string {
 	if u, ok := h.numUuid[num]; ok {
@@ -1043,6 +1169,11 @@ func (h *c18Run) exec(i int, o c18Op) (opTerm, obTerm string, skipCase bool) {
 		case "create-sub":
 			opTerm = fmt.Sprintf("OCmd %d CCreateSub", o.C)
 			body = map[string]interface{}{"type": "create-subscriber", "streamType": "video", "publisherId": "pub"}
+			if o.Remote {
+				opTerm = fmt.Sprintf("OCmd %d CCreateSubRemote", o.C)
+				body["remoteUrl"] = "https://c18-remote.invalid"
+				body["remoteToken"] = h.remoteToken("pub")
+			}
 		case "delete-pub":
 			opTerm = fmt.Sprintf("OCmd %d (CDeletePub %d)", o.C, o.Id)
 			body = map[string]interface{}{"type": "delete-publisher", "clientId": h.uuidOf(o.Id)}
@@ -1193,7 +1324,7 @@ func (h *c18Run) exec(i int, o c18Op) (opTerm, obTerm string, skipCase bool) {
 		h.proxy.onMcuDisconnected()
 		h.settle(3)
 	case "done":
-		r := map[string]string{"ok": "MOk", "fail": "MFail", "timeout": "MTimeout"}[o.R]
+		r := c18ResTerm[o.R]
 		if r == "" {
 			r, o.R = "MOk", "ok"
 		}
@@ -1531,7 +1662,7 @@ func c18GenScriptCase(r *vrng, id int) *c18Case {
 		c.Ops = append(c.Ops, c18Op{K: "done", T: pend[j], R: pick(r, []string{"ok", "ok", "fail"})})
 		pend = append(pend[:j], pend[j+1:]...)
 	}
-	return c
+	return c18Remotify(r, c)
 }
 
 // sessions that end with creations in flight: 1-3 sessions, each with 0-2 objects and 1-3
@@ -1614,11 +1745,40 @@ func c18GenCloseCase(r *vrng, id int) *c18Case {
 	for t := 0; t < nextObj; t++ {
 		c.Ops = append(c.Ops, c18Op{K: "payload", C: nextConn, Id: t, P: "end"})
 	}
-	return c
+	return c18Remotify(r, c)
 }
 
 // directed histories: the schedule "creation completes after the session was
 // closed" in its variants, deletes across sessions, loss of the media server
+// c18Remotify turns about half of the create-subscriber requests of a generated case into
+// the remote form, and about half of the failing answers of the media server into "the
+// remote publisher was created, attaching the subscriber failed" (for a local creation
+// that is the plain failure).  The model's operations stay what they were.
+func c18Remotify(r *vrng, c *c18Case) *c18Case {
+	sub := func(res string) string {
+		if (res == "fail" || res == "timeout") && r.chance(50) {
+			return "sub" + res
+		}
+		return res
+	}
+	for i := range c.Ops {
+		o := &c.Ops[i]
+		if o.K == "cmd" && o.Cmd == "create-sub" && r.chance(55) {
+			o.Remote = true
+		}
+		if o.K == "done" {
+			o.R = sub(o.R)
+		}
+		for j := range o.In {
+			o.In[j].R = sub(o.In[j].R)
+		}
+	}
+	if c.Family != "" {
+		c.Family += "+remote"
+	}
+	return c
+}
+
 func c18Directed() []*c18Case {
 	v := func() *c18Tok { return &c18Tok{Alg: "RS256", Iss: "iss0", Key: 0, Iat: i64(0), Class: "valid"} }
 	var out []*c18Case
@@ -1684,6 +1844,37 @@ func c18Directed() []*c18Case {
 		c18Op{K: "expire", Sid: 1, In: []c18Slot{{W: "list", T: 2, R: "ok"}, {W: "ctx", T: 1, R: "ok"}, {W: "subs", T: 4, R: "ok"}, {W: "remote", T: 3, R: "timeout"}}},
 		c18Op{K: "payload", C: 1, Id: 1, P: "end"}, c18Op{K: "payload", C: 1, Id: 2, P: "end"}, c18Op{K: "cmd", C: 1, Cmd: "streams", Id: 4},
 		c18Op{K: "bye", C: 1, In: []c18Slot{{W: "remote", T: 9, R: "ok"}}})
+	// remote create-subscriber (remoteUrl + remoteToken): every outcome of the two calls at the
+	// media server, with the session alive afterwards (the request's connection goes on, a second
+	// request follows), ending, ended before the answer, and closing while the answer arrives
+	rs := func(cn int) c18Op { return c18Op{K: "cmd", C: cn, Cmd: "create-sub", Remote: true} }
+	for _, res := range []string{"ok", "fail", "timeout", "subfail", "subtimeout"} {
+		add("remote-sub/"+res+"/bye",
+			c18Op{K: "hello", C: 0, Tok: v()}, rs(0), c18Op{K: "done", T: 0, R: res},
+			c18Op{K: "payload", C: 0, Id: 0, P: "end"}, rs(0), c18Op{K: "done", T: 1, R: "ok"},
+			c18Op{K: "cmd", C: 0, Cmd: "delete-sub", Id: 0}, c18Op{K: "bye", C: 0},
+			c18Op{K: "hello", C: 1, Tok: v()}, c18Op{K: "payload", C: 1, Id: 1, P: "end"})
+		add("remote-sub/"+res+"/expiry",
+			c18Op{K: "hello", C: 0, Tok: v()}, c18Op{K: "hello", C: 1, Tok: v()}, rs(0), rs(1), c18Op{K: "done", T: 1, R: "ok"},
+			c18Op{K: "done", T: 0, R: res}, c18Op{K: "drop", C: 0}, c18Op{K: "expire", Sid: 1}, c18Op{K: "cmd", C: 1, Cmd: "delete-sub", Id: 1},
+			c18Op{K: "cmd", C: 1, Cmd: "delete-sub", Id: 0}, c18Op{K: "bye", C: 1})
+		add("remote-sub/"+res+"/mculost",
+			c18Op{K: "hello", C: 0, Tok: v()}, rs(0), c18Op{K: "done", T: 0, R: res}, c18Op{K: "mculost"},
+			rs(0), c18Op{K: "mculost"}, c18Op{K: "done", T: 1, R: res}, c18Op{K: "bye", C: 0})
+		add("remote-sub/"+res+"/after-bye",
+			c18Op{K: "hello", C: 0, Tok: v()}, rs(0), c18Op{K: "resume", C: 1, Sid: 1}, c18Op{K: "bye", C: 1},
+			c18Op{K: "done", T: 0, R: res}, c18Op{K: "hello", C: 2, Tok: v()}, c18Op{K: "payload", C: 2, Id: 0, P: "end"})
+		add("remote-sub/"+res+"/after-expiry",
+			c18Op{K: "hello", C: 0, Tok: v()}, rs(0), c18Op{K: "drop", C: 0}, c18Op{K: "expire", Sid: 1},
+			c18Op{K: "done", T: 0, R: res})
+		for _, w := range c18Windows {
+			add("remote-sub/"+res+"/inside-bye/"+w,
+				c18Op{K: "hello", C: 0, Tok: v()}, rs(0), c18Op{K: "resume", C: 1, Sid: 1},
+				c18Op{K: "bye", C: 1, In: []c18Slot{{W: w, T: 0, R: res}}},
+				c18Op{K: "hello", C: 2, Tok: v()}, c18Op{K: "payload", C: 2, Id: 0, P: "end"})
+		}
+	}
+	add("remote-sub/before-hello", rs(0), c18Op{K: "hello", C: 0, Tok: v()}, rs(0), c18Op{K: "done", T: 0, R: "subfail"})
 	add("delete-across-sessions",
 		c18Op{K: "hello", C: 0, Tok: v()}, c18Op{K: "hello", C: 1, Tok: v()},
 		c18Op{K: "cmd", C: 0, Cmd: "create-pub"}, c18Op{K: "done", T: 0, R: "ok"},
@@ -1727,7 +1918,16 @@ func c18Stress(t *testing.T, env verifEnv, keys *c18KeySet, sink *caseSink) {
 		if round%2 == 1 {
 			kind = "create-sub"
 		}
-		h.exec(1, c18Op{K: "cmd", C: 0, Cmd: kind})
+		// every fourth round the subscriber is a remote one; every eighth its attach fails at that moment
+		remote := round%4 == 3
+		if remote {
+			kind = "create-sub(remote)"
+			if round%8 == 7 {
+				h.mcu.cancelRes = "subfail"
+				kind = "create-sub(remote, attach fails)"
+			}
+		}
+		h.exec(1, c18Op{K: "cmd", C: 0, Cmd: strings.SplitN(kind, "(", 2)[0], Remote: remote})
 		h.exec(2, c18Op{K: "resume", C: 1, Sid: 1})
 		// bye cancels the request context; the fake media server answers "created" at that very moment
 		h.exec(3, c18Op{K: "bye", C: 1})
@@ -1737,6 +1937,11 @@ func c18Stress(t *testing.T, env verifEnv, keys *c18KeySet, sink *caseSink) {
 		h.proxy.clientsLock.RUnlock()
 		h.mcu.mu.Lock()
 		nopen := len(h.mcu.open)
+		for _, rp := range h.mcu.rpubs {
+			if rp.refcnt.Load() > 0 {
+				nopen++ // a remote publisher somebody still holds a reference to
+			}
+		}
 		h.mcu.mu.Unlock()
 		if nclients != 0 || nopen != 0 {
 			left++
@@ -1816,6 +2021,12 @@ func TestVerifC18(t *testing.T) {
 		accepted, refused, created := 0, 0, 0
 		for i, o := range c.Ops {
 			sink.count("op_" + o.K)
+			if o.K == "cmd" && o.Cmd == "create-sub" && o.Remote {
+				sink.count("remote_create_subscriber")
+			}
+			if o.K == "done" && strings.HasPrefix(o.R, "sub") {
+				sink.count("answer_remote_attach_" + strings.TrimPrefix(o.R, "sub"))
+			}
 			for _, sl := range o.In {
 				sink.count("completion_inside_close_" + sl.W)
 			}
@@ -1848,5 +2059,5 @@ func TestVerifC18(t *testing.T) {
 	if env.replay == "" {
 		c18Stress(t, env, keys, sink)
 	}
-	sink.close("directed schedules (incl. creations completing inside each forcible window of ProxySession.Close) + seeded sessions ending with creations in flight + seeded token cases (valid tokens and 30 mutation classes) + seeded command scripts of 1-3 sessions on the real ProxyServer over websockets with a gated fake media server; non-trivial = at least one accepted hello and (an object created or a hello refused); distinct = distinct observation sequences")
+	sink.close("directed schedules (incl. creations completing inside each forcible window of ProxySession.Close) + seeded sessions ending with creations in flight + seeded token cases (valid tokens and 30 mutation classes) + seeded command scripts of 1-3 sessions (create-subscriber local and remote: remote publisher created / refused, subscriber attached / attach fails, reference counts of the remote publishers observed) on the real ProxyServer over websockets with a gated fake media server; non-trivial = at least one accepted hello and (an object created or a hello refused); distinct = distinct observation sequences")
 }
